@@ -94,7 +94,7 @@ fn main() {
     let budget: u64 = std::env::var("NFV_WATCHDOG_S")
         .ok()
         .and_then(|s| s.parse().ok())
-        .unwrap_or(if tier == "thorough" { 6 * 3600 } else { 1500 });
+        .unwrap_or(if tier == "thorough" { 8 * 3600 } else { 3600 });
     std::thread::spawn(move || {
         std::thread::sleep(std::time::Duration::from_secs(budget));
         println!("INCONCLUSIVE watchdog after {} s", budget);
